@@ -15,8 +15,8 @@
  */
 
 use crate::entities::json::{
-    err::JsonSerializationError, ContextJsonDeserializationError, ContextJsonParser,
-    NullContextSchema,
+    check_for_reserved_keys, err::JsonSerializationError, ContextJsonDeserializationError,
+    ContextJsonParser, NullContextSchema,
 };
 use crate::entities::CedarValueJson;
 use crate::evaluator::{EvaluationError, RestrictedEvaluator};
@@ -424,23 +424,33 @@ impl Context {
 
     /// Convert this `Context` to a JSON value
     pub fn to_json_value(&self) -> Result<serde_json::Value, JsonSerializationError> {
+        // The context is parsed back as one JSON record, so its own keys are
+        // subject to the same restriction as the keys of any nested record:
+        // a key which collides with one of our JSON escapes could be
+        // interpreted as an escape when being read back in.
         match self {
-            Self::Value(record) => record
-                .iter()
-                .map(|(k, v)| {
-                    let cjson = CedarValueJson::from_value(v.clone())?;
-                    Ok((k.to_string(), serde_json::to_value(cjson)?))
-                })
-                .collect(),
-            Self::RestrictedResidual(record) => record
-                .iter()
-                .map(|(k, v)| {
-                    // By INVARIANT(restricted), all the expressions here are restricted expressions
-                    let cjson =
-                        CedarValueJson::from_expr(BorrowedRestrictedExpr::new_unchecked(v))?;
-                    Ok((k.to_string(), serde_json::to_value(cjson)?))
-                })
-                .collect(),
+            Self::Value(record) => {
+                check_for_reserved_keys(record.keys())?;
+                record
+                    .iter()
+                    .map(|(k, v)| {
+                        let cjson = CedarValueJson::from_value(v.clone())?;
+                        Ok((k.to_string(), serde_json::to_value(cjson)?))
+                    })
+                    .collect()
+            }
+            Self::RestrictedResidual(record) => {
+                check_for_reserved_keys(record.keys())?;
+                record
+                    .iter()
+                    .map(|(k, v)| {
+                        // By INVARIANT(restricted), all the expressions here are restricted expressions
+                        let cjson =
+                            CedarValueJson::from_expr(BorrowedRestrictedExpr::new_unchecked(v))?;
+                        Ok((k.to_string(), serde_json::to_value(cjson)?))
+                    })
+                    .collect()
+            }
         }
     }
 
